@@ -38,13 +38,15 @@ def gen(c, k, labels, nkinds=3, with_fm=False):
     items = []
     kept_flags, defined = [], set()
     for i in range(k):
-        kind = c.choose(nkinds)  # 0 ref, 1 def, 2 def in quote, 3 def written inside the body of the preceding definition
+        kind = c.choose(nkinds)  # 0 ref, 1 def, 2 def in quote, 3 def written inside the body of the preceding definition, 4 a heading whose title equals a (non-numeric) label
         lab = c.pick(labels)
         # nesting only under a definition that is itself kept (the body of a dropped duplicate is dropped with it: outside the claim)
         if kind == 3 and not (items and items[-1][0] in (1, 3) and kept_flags[-1]):
             kind = 1
-        kept_flags.append(kind != 0 and lab not in defined)
-        if kind != 0:
+        if kind == 4 and lab.isdigit():
+            kind = 0
+        kept_flags.append(kind in (1, 2, 3) and lab not in defined)
+        if kind in (1, 2, 3):
             defined.add(lab)
         items.append((kind, lab))
     sort = bool(c.choose(2))
@@ -60,7 +62,9 @@ def gen(c, k, labels, nkinds=3, with_fm=False):
             lines += ["", "    " * depth + "[^%s]: D%d definition" % (lab, i), ""]
             continue
         depth = 0
-        if kind == 0:
+        if kind == 4:
+            lines += ["# %s" % lab, ""]
+        elif kind == 0:
             lines += ["R%d text[^%s] more" % (i, lab), ""]
         elif kind == 1:
             lines += ["[^%s]: D%d definition" % (lab, i), ""]
@@ -105,7 +109,7 @@ def check(doc, warn, spec):
     kept = {}
     dup = 0
     for i, (kind, lab) in enumerate(items):
-        if kind != 0:
+        if kind in (1, 2, 3):
             if lab in kept:
                 dup += 1
             else:
@@ -234,7 +238,7 @@ def make(eng, k, labels, nkinds=3, with_fm=False):
             eng.fail(err[0], err[1])
         eng.passed(10)
         its = spec["items"]
-        defs = {l for kd, l in its if kd}
+        defs = {l for kd, l in its if kd in (1, 2, 3)}
         if any(kd == 0 and l in defs for kd, l in its) and len(its) >= 3:
             eng.note("linked")
         return "ok"
@@ -250,6 +254,8 @@ def families(tier, seed):
                         args=dict(k=k, labels=labels), nontrivial=("linked" if k >= 3 else None), max_forks=400000, required=(k <= 4 and len(labels) <= 3 or k <= 3)))
     F.append(Family("arr/K3-nested+frontmatter", make, "3 items (reference / definition / definition in a quote / definition nested in the body of the preceding definition) over labels ['a', '1'] x settings given globally or "
                     "overridden in the front matter (global value opposite)", args=dict(k=3, labels=["a", "1"], nkinds=4, with_fm=True), nontrivial="linked", max_forks=400000))
+    F.append(Family("arr/K3-headings", make, "3 items (reference / definition / definition in a quote / heading whose title equals a label) over labels ['a', 'b']: a heading named like a label does not disturb the footnote",
+                    args=dict(k=3, labels=["a", "b"], nkinds=5), nontrivial="linked", max_forks=400000))
     F.append(Family("arr/K5-L2-flat", make, "all arrangements of 5 items (reference / definition) over labels ['a', 'b'] x both settings (repeated references between other labels' first references)",
                     args=dict(k=5, labels=["a", "b"], nkinds=2), nontrivial="linked", max_forks=400000))
     if not q:
